@@ -183,6 +183,11 @@ def consistent(decl, cls):
         if g is False and cls[cv] is False:
             # optional in the graph but required by the expression
             return False
+        if (g is False and cls[cv] is None
+                and cv in ('submit_failed', 'expired')):
+            # permitted in the graph (the task may end that way) but the
+            # expression can never be completed by it (documented table)
+            return False
     return True
 
 
